@@ -3,10 +3,22 @@ use std::io::Write;
 
 fn main() {
     verif_harness::silence_logs();
+    verif_harness::start_watchdog(std::env::var("VERIF_WATCHDOG_SECS").ok().and_then(|s| s.parse().ok()).unwrap_or(60));
     let args: Vec<String> = std::env::args().collect();
     let get = |k: &str, d: &str| -> String {
         args.iter().position(|a| a == k).and_then(|i| args.get(i + 1)).cloned().unwrap_or(d.to_string())
     };
+    if args.iter().any(|a| a == "--hung") {
+        // C12, runtime half: every other call returns promptly while an update hangs in a network callback
+        let base: Vec<u8> = (0..4096u32).map(|i| (i * 7 % 251) as u8).collect();
+        let mut target = base.clone();
+        for i in (0..target.len()).step_by(97) { target[i] ^= 0x5a; }
+        let patch = verif_harness::gen::make_patch_fast(&base, &target);
+        let (lines, bad) = verif_harness::hung::run_hung(&base, &target, &patch);
+        for l in &lines { println!("{}", l); }
+        println!("HUNG-SUMMARY lines={} violations={}", lines.len(), bad);
+        std::process::exit(if bad == 0 { 0 } else { 1 });
+    }
     let seed: u64 = get("--seed", "1").parse().unwrap();
     let count: u64 = get("--count", "100").parse().unwrap();
     let prof = verif_harness::gen::profile(&get("--profile", "mixed"));
